@@ -81,8 +81,14 @@ def case_superpose(col, p):
         from dadi import Integration as I
         _, T, sizes, mig, gammas, hs, frozen = op
         sizes_v = [PR.size_value((s + [T]) if isinstance(s, list) else s, 1.0) for s in sizes]
+        # the caller's density is passed as it is: superposition is stated for densities the caller goes on using, so it must come back unchanged
+        snap = phi.copy()
         if d == 1:
-            return I.one_pop(phi.copy(), xx, T, nu=sizes_v[0], gamma=gammas[0], h=hs[0], theta0=theta, frozen=bool(frozen[0]))
+            out = I.one_pop(phi, xx, T, nu=sizes_v[0], gamma=gammas[0], h=hs[0], theta0=theta, frozen=bool(frozen[0]))
+            if not np.array_equal(phi, snap) or np.shares_memory(out, phi):
+                col.violation('C03:superposition:int1D:input_modified', dict(p), {'maxchange': float(np.abs(phi - snap).max())})
+                phi[...] = snap
+            return np.array(out)
         kw = {}
         for k in range(d):
             kw['nu%d' % (k + 1)] = sizes_v[k]; kw['gamma%d' % (k + 1)] = gammas[k]; kw['h%d' % (k + 1)] = hs[k]; kw['frozen%d' % (k + 1)] = bool(frozen[k])
@@ -91,7 +97,11 @@ def case_superpose(col, p):
         if nomut is not None and d == 2:
             kw['nomut1'], kw['nomut2'] = bool(nomut[0]), bool(nomut[1])
         fn = [None, None, I.two_pops, I.three_pops, I.four_pops, I.five_pops][d]
-        return np.array(fn(phi.copy(), xx, T, theta0=theta, **kw))
+        out = fn(phi, xx, T, theta0=theta, **kw)
+        if not np.array_equal(phi, snap) or np.shares_memory(out, phi):
+            col.violation('C03:superposition:int%dD:input_modified' % d, dict(p), {'maxchange': float(np.abs(phi - snap).max())})
+            phi[...] = snap
+        return np.array(out)
 
     thetas = [0.0, 1.0, 2.5]
     coefs = [(1.0, 1.0), (2.0, 0.5), (0.0, 1.0), (3.0, 0.25)]
@@ -131,7 +141,45 @@ def _superpose_body(col, p, integrate, dense, thetas, coefs, shape, N, d):
     col.distinct('nontrivial', ('superpose', d, G, json.dumps(op)[:200], tuple(nomut or ()), lo))
 
 
-CASES = {'rescale': case_rescale, 'superpose': case_superpose}
+INIT_GAMMAS = [-1e6, -1e4, -400.0, -300.5, -299.0, -40.0, -3.0, -1e-3, 0.0, 1e-3, 2.0, 40.0, 299.0, 301.0, 1e3]
+INIT_HS = [0.0, 0.2, 0.5, 0.7, 1.0]
+INIT_NUS = [0.1, 0.5, 1.0, 3.0, 10.0]
+
+
+def case_init_lattice(col, p):
+    """the equilibrium density over the whole stated selection domain (not only the mild values of the program alphabet) at every factor c:
+    phi_1D(nu*c, theta0/c, gamma/c, h) must not depend on c (the product gamma*nu and theta0*nu are what matter)"""
+    import dadi
+    xx = space.grid(p['grid'], p['G'], p['seed'])
+    h = p['h']
+    n = 0
+    for nu, gamma in itertools.product(INIT_NUS, INIT_GAMMAS):
+        base = dadi.PhiManip.phi_1D(xx, nu=nu, theta0=p['theta0'], gamma=gamma, h=h)
+        col.tick(transitions=1)
+        info = dict(p, nu=nu, gamma=gamma)
+        if not np.isfinite(base).all():
+            col.violation('C03:rescale:phi_1D_sel:not_finite', info, {'c': 1.0})
+            continue
+        for c in BIN_C + DEC_C:
+            got = dadi.PhiManip.phi_1D(xx, nu=nu * c, theta0=p['theta0'] / c, gamma=gamma / c, h=h)
+            col.tick(transitions=1)
+            n += 1
+            if not np.isfinite(got).all():
+                col.violation('C03:rescale:phi_1D_sel:not_finite', dict(info, c=c), {'c': c})
+                continue
+            sc = max(float(np.abs(base).max()), 1e-300)
+            err = float(np.abs(got - base).max()) / sc
+            # the quadrature for h != 0.5 is adaptive: a last-bit change of gamma*nu under a decimal factor moves its result by |gamma*nu| ulps
+            tol = 1e-12 if c in BIN_C else max(1e-9, 4e-16 * abs(gamma * nu) * 10)
+            if not err <= tol:
+                col.violation('C03:rescale:phi_1D%s' % ('_sel' if gamma != 0 else ''), dict(info, c=c), {'relerr': err, 'tol': tol})
+            else:
+                col.observe('rescale_init', err / tol)
+    col.tick(states=n, traces=n)
+    col.distinct('nontrivial', ('init_lattice', p['G'], p['grid'], h))
+
+
+CASES = {'rescale': case_rescale, 'superpose': case_superpose, 'init_lattice': case_init_lattice}
 
 
 def _dispatch(col, case):
@@ -173,6 +221,9 @@ def run(ctx):
         cases.append({'kind': 'rescale', 'G': 4, 'grid': 'D', 'seed': seed, 'theta0': 0.6, 'programs': progs45[lo:lo + 6]})
     if ctx.quick:
         ctx.cap_hit('quick: programs up to length 3 (1-3 populations) / 2 (4-5 populations); thorough: 4 / 3')
+    for h in INIT_HS:
+        for gk2, G2 in (('E', 8), ('U', 12)):
+            cases.append({'kind': 'init_lattice', 'G': G2, 'grid': gk2, 'seed': seed, 'theta0': 1.7, 'h': h})
     # superposition
     Gd = {1: 7, 2: 5, 3: 4, 4: 3, 5: 3}
     for d in range(1, 6):
